@@ -64,6 +64,8 @@ type refState struct {
 	dirty  map[ethcmn.Address]bool
 	refund uint64
 	nlogs  int
+	logIdx []uint // Index of each log of the transaction
+	logSeq uint   // block-wide log counter
 	alAddr map[ethcmn.Address]bool
 	alSlot map[ethcmn.Address]map[ethcmn.Hash]bool
 }
@@ -85,6 +87,7 @@ func (s *refState) copy() *refState {
 		c.ghost[a] = true
 	}
 	c.refund, c.nlogs = s.refund, s.nlogs
+	c.logIdx, c.logSeq = append([]uint{}, s.logIdx...), s.logSeq
 	for a := range s.alAddr {
 		c.alAddr[a] = true
 	}
@@ -337,7 +340,18 @@ func (e *c16Env) compare(at string, which ...int) {
 		sv.Assert(e.sdb.AddressInAccessList(a) == r.alAddr[a], "AddressInAccessList")
 	}
 	sv.Assert(e.sdb.GetRefund() == r.refund, "GetRefund")
-	sv.Assert(len(e.sdb.GetTxLogs()) == r.nlogs, "GetTxLogs")
+	e.compareLogs()
+}
+
+func (e *c16Env) compareLogs() {
+	r := e.ref.cur
+	logs := e.sdb.GetTxLogs()
+	sv.Assert(len(logs) == r.nlogs, "GetTxLogs")
+	if len(logs) == r.nlogs {
+		for i, l := range logs {
+			sv.Assert(l.Index == r.logIdx[i] && l.TxHash == e.sdb.thash && l.BlockHash == e.sdb.bhash, "log-index-and-hashes")
+		}
+	}
 }
 
 // compareGlobals checks the refund counter, the logs and the access list.
@@ -351,7 +365,7 @@ func (e *c16Env) compareGlobals() {
 		sv.Assert(e.sdb.AddressInAccessList(a) == r.alAddr[a], "AddressInAccessList")
 	}
 	sv.Assert(e.sdb.GetRefund() == r.refund, "GetRefund")
-	sv.Assert(len(e.sdb.GetTxLogs()) == r.nlogs, "GetTxLogs")
+	e.compareLogs()
 }
 
 // step applies one operation to both sides. kind 0: account operations on the
@@ -436,6 +450,8 @@ func (e *c16Env) step(name string, addr int, kind int) {
 		a := e.addrs[1]
 		e.sdb.AddLog(&ethtypes.Log{Address: a})
 		e.ref.cur.nlogs++
+		e.ref.cur.logIdx = append(e.ref.cur.logIdx, e.ref.cur.logSeq)
+		e.ref.cur.logSeq++
 	case 10:
 		a := pick()
 		if sv.Choice(name+".slot", 2) == 0 {
@@ -525,20 +541,24 @@ func SV_C16_across_finalise() {
 
 // SV_C16_globals: refund counter, logs and access list under snapshot / revert.
 //
-// sv:bounds operations AddRefund / SubRefund (1,2), AddLog, access-list address / slot on 2 of the addresses; [op, snapshot, op, op, revert or not, compare, finalise, compare]
+// sv:bounds operations AddRefund / SubRefund (1,2), AddLog, access-list address / slot on 2 of the addresses; [op, snapshot, op, (thorough: op,) revert or not, compare, op, compare, finalise, compare]
 // sv:outside as SV_C16_snapshot_revert
-// sv:goal refund, log count and access list equal the reference after the operations, after the revert and after Finalise
+// sv:goal refund, the logs (count, Index, transaction and block hash) and the access list equal the reference after the operations, after the revert and after Finalise
 func SV_C16_globals() {
 	e := c16NewEnv(false)
 	e.step("g1", -1, 1)
 	e.snapshot()
 	e.step("g2", -1, 1)
-	e.step("g3", -1, 1)
+	if sv.Tier() > 0 {
+		e.step("g3", -1, 1)
+	}
 	e.compareGlobals()
 	if sv.Choice("revert", 2) == 1 {
 		e.revert(0)
 		e.compareGlobals()
 	}
+	e.step("g4", -1, 1)
+	e.compareGlobals()
 	e.finalise()
 	e.compareGlobals()
 }
